@@ -7,6 +7,7 @@
 package main
 
 import (
+	"sort"
 	stdjson "encoding/json"
 	"fmt"
 	"runtime"
@@ -80,6 +81,23 @@ func enumDup(a, b string) (dup bool, errText string, pan any) {
 	defer func() { pan = recover() }()
 	p := jsonschema.NewParser(jsonschema.Settings{})
 	raw := &jsonschema.RawSchema{Enum: jsonschema.Enum{stdjson.RawMessage(a), stdjson.RawMessage(b)}}
+	_, err := p.Parse(raw, jsonpointer.NewResolveCtx(jsonpointer.DummyURL(), 1000))
+	if err != nil {
+		return strings.Contains(err.Error(), "duplicate enum value"), err.Error(), nil
+	}
+	return false, "", nil
+}
+
+func enumDupN(typ string, members []string) (dup bool, errText string, pan any) {
+	defer func() { pan = recover() }()
+	p := jsonschema.NewParser(jsonschema.Settings{})
+	raw := &jsonschema.RawSchema{Type: typ}
+	for _, m := range members {
+		raw.Enum = append(raw.Enum, stdjson.RawMessage(m))
+	}
+	if typ == "array" {
+		raw.Items = &jsonschema.RawItems{Item: &jsonschema.RawSchema{Type: "number"}}
+	}
 	_, err := p.Parse(raw, jsonpointer.NewResolveCtx(jsonpointer.DummyURL(), 1000))
 	if err != nil {
 		return strings.Contains(err.Error(), "duplicate enum value"), err.Error(), nil
@@ -347,6 +365,74 @@ func main() {
 	close(ej)
 	wg.Wait()
 	enumN = int64(len(E)) * int64(len(E))
+
+	// positional enums: every enum of 3 and of 4 members over a small value set (all JSON types, two
+	// spellings of some values), untyped and under each matching `type`: a duplicate must be found
+	// wherever the two equal members stand (first/last, adjacent or not) and whatever the type
+	typed := map[string][]string{
+		"":        {"null", "true", "1", "1.0", "2", `"a"`, `"\u0061"`, `"b"`, "[]", "[1]", "[1.0]", "{}", `{"a":1}`, `{"a":1.0}`},
+		"string":  {`"a"`, `"\u0061"`, `"b"`, `""`, `"A"`},
+		"integer": {"1", "2", "1e0", "10", "1e1"},
+		"number":  {"1", "1.0", "0.5", "5e-1", "2"},
+		"boolean": {"true", "false"},
+		"array":   {"[]", "[1]", "[1.0]", "[ 1 ]", "[1,2]", "[2,1]"},
+		"object":  {"{}", `{"a":1}`, `{"a":1.0}`, `{"a":1,"b":2}`, `{"b":2,"a":1}`, `{"a":2}`},
+	}
+	var listDup, listOK, listOther int64
+	var tnames []string
+	for t := range typed {
+		tnames = append(tnames, t)
+	}
+	sort.Strings(tnames)
+	for _, typ := range tnames {
+		vals := typed[typ]
+		var rec func(cur []string, n int)
+		rec = func(cur []string, n int) {
+			if len(cur) == n {
+				enumN++
+				want := false
+				for i := range cur {
+					for j := i + 1; j < len(cur); j++ {
+						if jsonref.Canon(cur[i]).Canon == jsonref.Canon(cur[j]).Canon {
+							want = true
+						}
+					}
+				}
+				dup, et, pan := enumDupN(typ, cur)
+				if dup && want {
+					listDup++
+				}
+				if !dup && !want && et == "" {
+					listOK++
+				}
+				c := pairCase{Kind: "enum-list", A: typ, B: strings.Join(cur, " | "), Want: fmt.Sprint("duplicate=", want), Got: fmt.Sprintf("duplicate=%v err=%q", dup, et)}
+				switch {
+				case pan != nil:
+					c.Got = fmt.Sprint("panic: ", pan)
+					r.Violation(map[string]string{"class": "enum-panic", "a": typ, "b": c.B}, len(c.B), c)
+				case et != "" && !dup:
+					// refused for another reason (value does not fit the type): outside this oracle
+					listOther++
+				case dup && !want:
+					r.Violation(map[string]string{"class": "enum-distinct-members-rejected-as-duplicate", "a": typ, "b": c.B}, len(c.B), c)
+				case !dup && want:
+					r.Violation(map[string]string{"class": "enum-duplicate-members-not-detected", "a": typ, "b": c.B}, len(c.B), c)
+				}
+				return
+			}
+			for _, v := range vals {
+				rec(append(cur, v), n)
+			}
+		}
+		rec(nil, 3)
+		if len(vals) <= 8 {
+			rec(nil, 4)
+		}
+	}
+	r.Eval(enumN - int64(len(E))*int64(len(E)))
+	r.Set("enum_lists_with_duplicate_detected", listDup)
+	r.Set("enum_lists_without_duplicate_accepted", listOK)
+	r.Set("enum_lists_refused_for_another_reason", listOther)
 
 	r.Set("texts", n)
 	r.Set("ordered_pairs", int64(n)*int64(n))
